@@ -4,4 +4,5 @@ set -e
 export PATH=/opt/veriftools/go1.26.8/bin:$PATH GOTOOLCHAIN=local GOFLAGS=-mod=mod GOPROXY=off GOSUMDB=off
 cd /verif/engine
 mkdir -p /verif/bin
-go build -o /verif/bin/gosym ./cmd/gosym
+go build -o /verif/bin/gosym.new ./cmd/gosym
+mv -f /verif/bin/gosym.new /verif/bin/gosym
